@@ -343,6 +343,23 @@ def gen_geometry(rng, basis, geo, npts, nnuc):
             if rng.random() < 0.8:
                 s.coord = list(rng.choice(nuc))
         return pts, nuc
+    if geo == "fnuc":
+        # every nucleus at full-mantissa coordinates away from the origin; points exactly ON a nucleus (same doubles)
+        # and a hair's breadth (1e-3 .. 1e-8 bohr) off it: the point-nucleus distance must be formed from coordinate
+        # DIFFERENCES to be accurate here (|R|^2 - 2 R.R_A + |R_A|^2 cancels catastrophically)
+        nuc = [[Fraction(rng.uniform(-6, 6)) for _ in range(3)] for _ in range(nnuc)]
+        pts = []
+        for _ in range(npts):
+            r = rng.random()
+            n = rng.choice(nuc)
+            if r < 0.4:
+                pts.append(list(n))
+            elif r < 0.8:
+                w = 10.0 ** -rng.randint(3, 8)
+                pts.append([Fraction(float(x) + rng.uniform(-w, w)) for x in n])
+            else:
+                pts.append([Fraction(float(x) + rng.uniform(-2, 2)) for x in n])
+        return pts, nuc
     centres = distinct([list(s.coord) for s in basis])
     nuc = list(centres)
     rng.shuffle(nuc)
@@ -421,7 +438,7 @@ def gen_valid(rng, idx, tier):
     big = (idx % 7 == 0)
     lmax = 3 if n <= 2 else (3 if big else 2)
     basis = gen_basis(rng, n, lmax=lmax, kmax=4 if n <= 2 else 3, mmax=3 if n <= 2 else 2)
-    geo = ["random", "axis", "pyth", "onnuc", "float"][(idx // 4) % 5]
+    geo = ["random", "axis", "pyth", "onnuc", "float", "fnuc"][(idx // 4) % 6]
     # keep the exact model affordable: its time is ~ 1e-4 s x points x sum over shell pairs of
     # Ka Kb (la+lb+1)^3 (1 + Ma Mb / 2)
     cost = sum(len(a.exps) * len(b.exps) * (a.l + b.l + 1) ** 3 * (1 + len(a.coeffs[0]) * len(b.coeffs[0]) / 2)
@@ -443,6 +460,8 @@ def gen_valid(rng, idx, tier):
         T = twoindex.gen_transform(rng, m, nf)
     P = gen_P(rng, m)
     kind = THR_KINDS[(idx // 3) % len(THR_KINDS)] if rng.random() < 0.85 else rng.choice(THR_KINDS)
+    if geo == "fnuc":
+        kind = rng.choice(["below-min", "below-min", "clear-", "clear+", "mid", "beyond"])   # thr > 0: points on nuclei are defined
     thr, kind = gen_thr(rng, pts, nuc, kind)
     case = {"kind": "esp", "geo": geo, "thr_kind": kind,
             "basis": [s.to_json() for s in basis], "P": [[str(x) for x in r] for r in P],
